@@ -9,7 +9,7 @@
 (***************************************************************************)
 EXTENDS AyMerge, Json
 
-CONSTANTS Docs,        \* the universe of surface documents a source may hold
+CONSTANTS Docs,        \* the universe of surface documents a source may hold (a sequence)
           SafeFlags,   \* the set of `safe=` values a source may be added with
           MinStages, MaxStages
 
@@ -27,10 +27,10 @@ Init == /\ stages = <<>> /\ acc = Nothing /\ phase = "adding" /\ k = 0
         /\ hist = <<>> /\ accs = <<>>
 
 \* Builder.add_source: one document of a source added with safe=s
-AddSource(sd, s) ==
+AddSource(i, sd, s) ==
     /\ phase = "adding" /\ Len(stages) < MaxStages
     /\ stages' = Append(stages, Parse(sd, s))
-    /\ hist' = Append(hist, [sd |-> sd, safe |-> s])
+    /\ hist' = Append(hist, [i |-> i, sd |-> sd, safe |-> s])
     /\ UNCHANGED <<acc, phase, k, accs>>
 
 \* Builder.flatten, first stage: premerge(None) and the !notnew check
@@ -56,7 +56,7 @@ Finish ==
     /\ phase' = "done"
     /\ UNCHANGED <<stages, acc, k, hist, accs>>
 
-Next == \/ \E sd \in Docs, s \in SafeFlags : AddSource(sd, s)
+Next == \/ \E i \in 1..Len(Docs), s \in SafeFlags : AddSource(i, Docs[i], s)
         \/ FlattenFirst \/ MergeStage \/ Finish
 
 Spec == Init /\ [][Next]_vars
